@@ -75,3 +75,17 @@ def grid_small(bound, bs=(64,), cs=None, qs=(1, 2), nmax=2, modes="rw", earlies=
                             for e in endings:
                                 out.append(cfg(mode, objs, b, c, q, early, e, bound=bound, **kw))
     return out
+
+
+def stream_grid(bound, costmode=0, total=12, rng=(1, 2, 3, 4, 5, 6)):
+    """bare UncompressedFile stage: every ordering of write chunk, read chunk, buffer and container size"""
+    out = []
+    for mode in ("raw", "cont"):
+        for w in rng:
+            for r in rng:
+                for b in rng:
+                    for c in rng:
+                        if mode == "cont" and c != rng[0]:
+                            continue        # the default container size plays no role when whole containers are appended
+                        out.append("mode=%s w=%d r=%d b=%d c=%d total=%d bound=%d costmode=%d" % (mode, w, r, b, c, total, bound, costmode))
+    return out
